@@ -921,7 +921,7 @@ class Emitter:
         if op == 'sub' and isinstance(ins.ty, TInt) and ins.ty.n == 64 and s.ptrdiff_operands(ins):
             # (ptrtoint a) - (ptrtoint b): keep it a pointer difference, which CBMC's symbolic execution can constant-fold
             pa, pb = s.ptrdiff_operands(ins)
-            w('  %s = (%s == %s) ? (u64)0 : (u64)(%s - %s);' % (R, pa, pb, pa, pb))
+            w('  %s = __IR_PTRDIFF(%s, %s);' % (R, pa, pb))
         elif op in ('add','sub','mul','udiv','sdiv','urem','srem','and','or','xor','shl','lshr','ashr','fadd','fsub','fmul','fdiv'):
             w('  %s = %s;' % (R, s.bin_expr(op, ins.ty, s.val(ins.ty, ins.a), s.val(ins.ty, ins.b))))
         elif op == 'icmp':
@@ -1250,6 +1250,13 @@ PRELUDE = r'''
 typedef uint8_t u8; typedef uint16_t u16; typedef uint32_t u32; typedef uint64_t u64; typedef unsigned __int128 u128;
 typedef int8_t i8; typedef int16_t i16; typedef int32_t i32; typedef int64_t i64; typedef __int128 i128;
 extern int __ir_exc_pending;
+/* (ptrtoint a) - (ptrtoint b) with 64-bit wrap-around: inside one object the difference of the offsets (which CBMC can
+ * constant-fold; C pointer subtraction itself is flagged as signed overflow by CBMC 6.11 when the result is negative) */
+#ifdef NATIVE
+#define __IR_PTRDIFF(a, b) ((u64)(a) - (u64)(b))
+#else
+#define __IR_PTRDIFF(a, b) (__CPROVER_same_object((a), (b)) ? (u64)__CPROVER_POINTER_OFFSET(a) - (u64)__CPROVER_POINTER_OFFSET(b) : (u64)(a) - (u64)(b))
+#endif
 void __ir_unreachable(void); void __ir_trap(void);
 u8* __ir_memcpy(u8*, u8*, u64); u8* __ir_memmove(u8*, u8*, u64); u8* __ir_memset(u8*, u8, u64);
 u8* __ir_memcpy_c(u8*, u8*, u64); u8* __ir_memmove_c(u8*, u8*, u64); u8* __ir_memset_c(u8*, u8, u64);
